@@ -163,6 +163,28 @@ def grid(ctx, thorough, do_model=True):
             one(ctx, dict(rep=rep), n, seq, do_model=do_model)
 
 
+def reused_strategy(ctx):
+    """ONE strategy object reduces several files one after the other (small ones first): every run honours the options the
+    object was configured with, as a fresh object does"""
+    rng = ctx.rng
+    for cfg in (dict(min=4), dict(min=2, max=8), dict(min=4, rep="always"), dict(max=4), dict()):
+        st = strat.make_strategy("minimize", cfg)
+        for n in (3, 16, 2, 40, 5, 64):
+            parts = [b"%d\n" % i for i in range(n)]
+            f = (b"", parts, [True] * n, b"")
+            for p in (0.0, 0.3):
+                seq = [rng.random() < p for _ in range(211)]
+                tc = strat.testcase_from_fields("line", f)
+                run = strat.run_real("minimize", cfg, tc, lambda k, c, seq=seq: seq[k % 211], max_tests=20000, strategy=st)
+                ctx.evaluations += 1
+                ctx.bump("reused-strategy")
+                case = dict(strategy="minimize", cfg=cfg, n=n, verdicts="".join("1" if v else "0" for v in run.verdicts[:150]),
+                            reused_strategy_object=True)
+                if run.error:
+                    ctx.fail("internal-error", f"minimize (re-used strategy object): {run.error}", case)
+                check_blocks(ctx, cfg, f, run, case)
+
+
 def collapse_blocks(ctx, thorough, do_model=True):
     rng = ctx.rng
     toks = [b"{\n", b"}\n", b"a\n", b"\n", b" \n", b"b{\n", b"x\n", b"y\n"]
@@ -291,6 +313,7 @@ def run(ctx) -> int:
     grid(ctx, ctx.thorough)
     layouts(ctx, ctx.thorough)
     collapse_blocks(ctx, ctx.thorough)
+    reused_strategy(ctx)
     deadlines(ctx, ctx.thorough)
     ctx.exhaustive.append("a clock jump past the limit at every test index (<= 25) of fixed runs of minimize, around, balanced, balanced+move")
     pow2_cases(ctx, ctx.thorough)
